@@ -12,6 +12,9 @@ from .report import DISCHARGED, UNDECIDED, VIOLATED, Ob
 from .smt import check_valid
 from .state import Raise, State, fresh
 from .symexec import Engine
+import os
+
+DEBUG = bool(os.environ.get("PYVC_DEBUG"))
 from .values import *
 
 
@@ -259,14 +262,33 @@ def _prove_combo(c, names, combo, tag, info):
     info["assumptions"].update(eng.assumptions_used)
     # group queries per obligation id
     groups = {}
+    reach, reach_seen = [], set()
+
+    def conjuncts(g):
+        if z3.is_and(g):
+            return [x for ch in g.children() for x in conjuncts(ch)]
+        if z3.is_or(g):
+            live = [ch for ch in g.children() if not (z3.is_false(ch) or (z3.is_and(ch) and any(z3.is_false(x) for x in conjuncts(ch))))]
+            if len(live) == 1:
+                return conjuncts(live[0])
+        return [g]
 
     def add_query(oid, pc, goal, path_desc):
-        groups.setdefault(oid, []).append((pc, goal, path_desc))
+        # a conjunction is proved conjunct by conjunct (smaller queries; the failing clause is named)
+        parts = conjuncts(goal) if getattr(c, "split_conjunctions", False) else [goal]
+        for i, g in enumerate(parts):
+            groups.setdefault(oid, []).append((list(pc) + parts[:i], g, path_desc if len(parts) == 1 else f"{path_desc} conjunct {i + 1}/{len(parts)}: {str(g)[:160]}"))
 
     for s, v in outcomes:
         pc = eng.axioms + s.pc
         for oid, formula in s.obligations:
-            add_query(f"{c.name}#{oid.split('@')[0]}[{tag}]", pc, formula, oid)
+            full = f"{c.name}#{oid.split('@', 1)[1].replace('#', '.')}[{tag}]" if "@" in oid else f"{c.name}#{oid}[{tag}]"
+            if isinstance(formula, tuple) and formula[0] == "reachable":
+                if (full, id(formula)) not in reach_seen:
+                    reach_seen.add((full, id(formula)))
+                    reach.append((full, eng.axioms + formula[1], oid))
+                continue
+            add_query(full, pc, formula, oid)
         if isinstance(v, Raise):
             e = v.exc
             if e.cls == "<loop-end>":
@@ -288,12 +310,23 @@ def _prove_combo(c, names, combo, tag, info):
         for clause, fn in c.post.items():
             goal = eval_pred(eng, s, fn, args + [res])
             add_query(f"{c.name}#{clause}[{tag}]", pc, goal, "normal return")
+    for full, hyps, desc in reach:
+        t0 = time.time()
+        r, model, why = check_valid(hyps, z3.BoolVal(False), c.timeout, second_opinion=False)
+        if r == "valid":
+            obs.append(Ob(full, UNDECIDED, detail={"reason": "contract defect: the hypotheses of this proof step are contradictory (everything after it would be vacuous)", "path": desc}, target=c.name, time_s=time.time() - t0))
+        else:
+            obs.append(Ob(full, DISCHARGED, detail={"note": "false is not derivable from the step's hypotheses" + ("" if r == "invalid" else " by trigger-based instantiation (quantified: no model available)")}, target=c.name, time_s=time.time() - t0))
     for oid, qs in groups.items():
         t0 = time.time()
         verdict, detail, witness = DISCHARGED, {"paths": len(qs)}, None
         backend = "z3"
         for pc, goal, desc in qs:
             r, model, why = check_valid(pc, goal, c.timeout)
+            if DEBUG:
+                print(f"[pyvc] {oid[-40:]} :: {desc[:200]!r} -> {r} {str(why)[:80]} {time.time() - t0:.1f}s", flush=True)
+                if r != "valid":
+                    continue
             if r == "valid":
                 if why:
                     backend = why
